@@ -159,20 +159,24 @@ def run(prop, tier, replay=None):
 
         def one(idx_case):
             idx, (f, opt, prog) = idx_case
-            paths = {"P": os.path.join(d, "out%d.bin" % idx), "o": os.path.join(d, "obj%d" % idx), "bad": os.path.join(d, "no-such-dir", "x.bin")}
+            paths = {"P": os.path.join(d, "out%d.bin" % idx), "o": "obj%d" % idx, "bad": os.path.join(d, "no-such-dir", "x.bin")}
+            # -o gets a name relative to cwd = d: asmline refuses -o names that contain a '.', which a directory name may
             argv = [exe] + argv_of(f, paths)
             text = PROGRAMS[prog][0]
+            pre_target = paths["P"] if f["out"] == "P" else (os.path.join(d, paths["o"] + ".bin") if f["out"] == "o" else None)
+            if pre_target and f.get("pre", "none") != "none":
+                open(pre_target, "wb").write(b"\xee" * (4096 if f["pre"] == "long" else 1))
             try:
                 if f["src"] == "file":
-                    r = subprocess.run(argv + [progfiles[prog]], stdin=subprocess.DEVNULL, capture_output=True, timeout=20)
+                    r = subprocess.run(argv + [progfiles[prog]], stdin=subprocess.DEVNULL, capture_output=True, timeout=20, cwd=d)
                 else:
-                    r = subprocess.run(argv, input=text.encode(), capture_output=True, timeout=20)
+                    r = subprocess.run(argv, input=text.encode(), capture_output=True, timeout=20, cwd=d)
                 exitc, out = r.returncode, r.stdout.decode("latin-1")
             except subprocess.TimeoutExpired:
                 exitc, out = 124, ""
             rows, count, value, junk = parse_stdout(out)
             fb = [-1]
-            target = paths["P"] if f["out"] == "P" else (paths["o"] + ".bin" if f["out"] == "o" else None)
+            target = pre_target
             if target and os.path.exists(target):
                 fb = list(open(target, "rb").read())
                 os.unlink(target)
